@@ -160,7 +160,8 @@ def h_sets_and_options():
     from dateutil import tz
     types = dict(i=int, n=int)
     CASES = ["cold-rdate", "set", "forceset", "compatible", "tzid", "utc-z", "ignoretz", "tzids-map", "unknown-part", "bad-freq", "bad-value", "bad-wd",
-             "unknown-prop", "empty", "cache"]
+             "unknown-prop", "empty", "cache", "tzid-names", "tzid-callable", "tzid-exdate", "crlf", "crlf-unfold", "crlf-folded", "crlf-compatible"]
+    TZNAMES = ["Mine", "Etc/GMT-3", "America/Port-au-Prince", "W-SU", "US/East-Indiana", "Zone.With.Dots", "Plus+Minus-", "lower_case/x"]
 
     def fn(ctx, i, n):
         ctx.assume(S.within(i, 0, len(CASES) - 1))
@@ -218,6 +219,52 @@ def h_sets_and_options():
                 z = tz.tzoffset("X", 3600 * n)
                 r = RR.rrulestr("DTSTART;TZID=Mine:19970902T090000\nRRULE:FREQ=DAILY;COUNT=2", tzids={"Mine": z})
                 ctx.check(list(r)[0].tzinfo is z, "tzids mapping not used", key=key)
+            elif case in ("tzid-names", "tzid-callable", "tzid-exdate"):
+                z = tz.tzoffset("HYPH", 3600 * n)
+                for nm in TZNAMES:
+                    seen = []
+                    if case == "tzid-callable":
+                        def look(name, _s=seen):
+                            _s.append(name)
+                            return z
+                        tzids = look
+                    else:
+                        tzids = {nm: z}
+                    text = "DTSTART;TZID=%s:19970902T090000\nRRULE:FREQ=DAILY;COUNT=3" % nm
+                    if case == "tzid-exdate":
+                        text += "\nEXDATE;TZID=%s:19970903T090000" % nm
+                    try:
+                        r = RR.rrulestr(text, tzids=tzids)
+                        occ = list(r)
+                    except Exception as e:
+                        ctx.fail("rrulestr with TZID=%s raised %s" % (nm, type(e).__name__), key=key + ":raises")
+                    ctx.check(all(o.tzinfo is z for o in occ), "TZID=%s: occurrences carry %r instead of the zone supplied through tzids" % (nm, occ[0].tzinfo if occ else None), key=key)
+                    ctx.check(len(occ) == (2 if case == "tzid-exdate" else 3), "TZID=%s: wrong number of occurrences (%d)" % (nm, len(occ)), key=key + ":count")
+                    if case == "tzid-callable":
+                        ctx.check(seen and all(x == nm for x in seen), "callable tzids was asked for %r, expected %r" % (seen, nm), key=key + ":asked")
+            elif case.startswith("crlf"):
+                want = list(RR.rrule(RR.WEEKLY, count=n, byweekday=(RR.TU, RR.TH), dtstart=start))
+                if case == "crlf":
+                    texts = [("DTSTART:19970902T090000\r\nRRULE:FREQ=WEEKLY;COUNT=%d;BYDAY=TU,TH\r\n" % n, {})]
+                elif case == "crlf-unfold":
+                    texts = [("DTSTART:19970902T090000\r\nRRULE:FREQ=WEEKLY;COUNT=%d;BYDAY=TU,TH\r\n" % n, dict(unfold=True)),
+                             ("DTSTART:19970902T090000\r\nRRULE:COUNT=%d;BYDAY=TU,TH;FREQ=WEEKLY" % n, dict(unfold=True))]
+                elif case == "crlf-folded":
+                    full = "RRULE:FREQ=WEEKLY;COUNT=%d;BYDAY=TU,TH" % n
+                    texts = [("DTSTART:19970902T090000\r\n" + full[:cut] + "\r\n " + full[cut:] + "\r\n", dict(unfold=True)) for cut in (6, 11, 13, 20, len(full) - 2)]
+                    texts.append(("DTSTART:1997\r\n 0902T090000\r\n" + full + "\r\n", dict(unfold=True)))
+                else:
+                    want = None
+                    texts = [("DTSTART:19970902T090000\r\nRRULE:FREQ=YEARLY;BYMONTH=1;COUNT=%d;BYDAY=TU\r\n" % n, dict(compatible=True))]
+                for (text, opts) in texts:
+                    try:
+                        got = list(RR.rrulestr(text, **opts))
+                    except Exception as e:
+                        ctx.fail("rrulestr(%r, %s) raised %s: %s" % (text, opts, type(e).__name__, str(e)[:60]), key=key + ":raises")
+                    if want is not None:
+                        ctx.check(got == want, "CRLF text %r (%s) does not give the keyword rule's occurrences" % (text, opts), key=key)
+                    else:
+                        ctx.check(got[0] == start and len(got) == n + 1, "compatible=True with CRLF text: DTSTART occurrence missing", key=key)
             elif case == "cache":
                 r = RR.rrulestr("FREQ=DAILY;COUNT=%d" % n, dtstart=start, cache=True)
                 ctx.check(r._cache is not None and len(list(r)) == n, "cache option lost", key=key)
